@@ -126,7 +126,11 @@ func (s *Set) ReadPatch(pu reflect.Value, td *corpus.TypeDef) (p *Patch, err err
 func (s *Set) readPatch(pu reflect.Value, td *corpus.TypeDef, p *Patch) {
 	for _, inc := range td.Includes {
 		itd := s.Schema.Lookup(inc)
-		s.readPatch(pu.FieldByName(itd.Name+"_PartialUpdate"), itd, p)
+		emb := pu.FieldByName(itd.Name + "_PartialUpdate")
+		if !emb.IsValid() {
+			emb = pu // flattened (root-module generator)
+		}
+		s.readPatch(emb, itd, p)
 	}
 	setF, delF := pu.FieldByName("Set_Fields"), pu.FieldByName("Delete_Fields")
 	for _, f := range td.Fields {
